@@ -14,6 +14,7 @@ package quic
 import (
 	"errors"
 	"fmt"
+	stdnet "net"
 	"sort"
 	"testing"
 	"testing/synctest"
@@ -140,11 +141,14 @@ func vfRunManager(c vtrace.Case, rec *vtrace.Rec) {
 	}
 }
 
-type vfPH struct{}
+type vfPH struct{ got int }
 
-func (vfPH) handlePacket(receivedPacket)                        {}
-func (vfPH) destroy(error)                                      {}
-func (vfPH) closeWithTransportError(qerr.TransportErrorCode)    {}
+func (h *vfPH) handlePacket(p receivedPacket) {
+	h.got++
+	p.buffer.MaybeRelease()
+}
+func (*vfPH) destroy(error)                                      {}
+func (*vfPH) closeWithTransportError(qerr.TransportErrorCode)    {}
 
 type vfCIDGen struct {
 	n   int
@@ -166,6 +170,9 @@ func vfRunGenerator(c vtrace.Case, rec *vtrace.Rec) {
 	tr.resetTokens = make(map[protocol.StatelessResetToken]packetHandler)
 	tr.closeQueue = make(chan closePacket, 4)
 	tr.logger = utils.DefaultLogger
+	tr.connIDLen = 8
+	tr.StatelessResetKey = &StatelessResetKey{7}
+	tr.statelessResetQueue = make(chan receivedPacket, 4)
 	phm := (*packetHandlerMap)(tr)
 	conn := &vfPH{}
 	cidLen := 8
@@ -235,7 +242,7 @@ func vfRunGenerator(c vtrace.Case, rec *vtrace.Rec) {
 	peerLimit := 0
 	hsDone := false
 	for _, op := range c.Ops {
-		if closed && op.Str("op") != "Tick" {
+		if closed && op.Str("op") != "Tick" && op.Str("op") != "Packet" {
 			continue
 		}
 		switch op.Str("op") {
@@ -273,6 +280,34 @@ func vfRunGenerator(c vtrace.Case, rec *vtrace.Rec) {
 			synctest.Wait()
 			now += op.Int("d")
 			observe(vtrace.Op{"ev": "Tick", "now": now})
+		case "Packet": // a short-header packet addressed to one of our IDs (or to an ID that was never ours) reaches the transport
+			dst := protocol.ParseConnectionID([]byte{0xee, 1, 2, 3, 4, 5, 6, 7})
+			label := 999
+			if id, ok := cids[op.Int("seq")]; ok && id.Len() == 8 {
+				dst, label = id, op.Int("seq")
+			}
+			if cidLen == 0 {
+				continue
+			}
+			data := append([]byte{0x40}, dst.Bytes()...)
+			data = append(data, make([]byte, 50)...)
+			buf := getPacketBuffer()
+			buf.Data = append(buf.Data[:0], data...)
+			before := conn.got
+			tr.handlePacket(receivedPacket{data: buf.Data, buffer: buf, remoteAddr: &stdnet.UDPAddr{IP: stdnet.IPv4(9, 9, 9, 9), Port: 9}})
+			to := "dropped"
+			switch {
+			case conn.got > before:
+				to = "conn"
+			case len(tr.statelessResetQueue) > 0:
+				(<-tr.statelessResetQueue).buffer.MaybeRelease()
+				to = "reset"
+			default:
+				if h, ok := phm.Get(dst); ok && h != packetHandler(conn) {
+					to = "closed"
+				}
+			}
+			observe(vtrace.Op{"ev": "Packet", "seq": label, "to": to})
 		case "Sweep":
 			gen.RemoveRetiredConnIDs(mt(now))
 			observe(vtrace.Op{"ev": "Sweep"})
